@@ -8,7 +8,7 @@ from vlib.formcheck import REL_DEFAULT, REL_STRICT, STRICT_OPTS
 def main():
     a = parse_args("C01")
     chk = Check("C01", "translation_validation", a.tier)
-    names = corpus.select("c01", quick=(a.tier == "quick"))
+    names = corpus.select("c01", "c11md", quick=(a.tier == "quick"))
     if a.only:
         names = [n for n in names if n in a.only.split(",")]
     spec = {"tier": a.tier, "itypes": ["cell"], "rel": REL_STRICT, "options": STRICT_OPTS}
